@@ -1,4 +1,5 @@
 import LyModel.XPath.LemmasYang
+import LyModel.XPath.LemmasYangInst
 /-!
 # C08 — the XPath functions of RFC 7950 §10 and the type-aware comparison  (engine `LyModel.XPath`, `Yang.lean` / `Eval.lean`)
 
@@ -127,7 +128,7 @@ theorem deref_leafref_spec (env : Env) (cx : Cx) (hq : env.q.derefErr = false) (
   have hts : env.leafrefTargets x = some ts := by
     simp only [Env.leafrefTargets, he, ht, if_true, hl] <;> rfl
   refine ⟨env.norm ts, ?_, env.norm_isNodeSet _, ?_⟩
-  · rw [callFn_deref, derefFn_leafref env x rest _ hts]; simp [hq]
+  · rw [callFn_deref, derefAny_leafref env x rest _ hts, derefFn_leafref env x rest _ hts]; simp [hq]
   · intro y
     unfold Env.norm
     rw [mem_mkNs, List.mem_filter]
@@ -145,7 +146,7 @@ theorem deref_leafref_spec (env : Env) (cx : Cx) (hq : env.q.derefErr = false) (
 /-- what libyang does instead when no such node exists (switch F354 on): the evaluation fails -/
 theorem deref_leafref_dangling (env : Env) (cx : Cx) (hq : env.q.derefErr = true) (x : Ref) (rest : List Ref)
     (h : env.leafrefTargets x = some []) : callFn (N := N) env cx "deref" [.ns (x :: rest)] = .error .inval := by
-  rw [callFn_deref, derefFn_leafref env x rest _ h]; simp [hq]
+  rw [callFn_deref, derefAny_leafref env x rest _ h, derefFn_leafref env x rest _ h]; simp [hq]
 
 /-- the path of a leafref (`Env.walk`, used by `deref`) selects exactly what the same predicate-free location path selects when it is
 written in an expression (`evalSteps`, XPath 1.0 step semantics) -/
@@ -230,5 +231,189 @@ theorem comp_canonize_deviates {N : Type} [XNum N] (env0 env1 : Env)
   · rw [Bool.eq_false_iff]
     intro h
     exact hne (hv0 ▸ (comp_rec_spec env0 h0 hb x s).mp h)
+
+/-! ## `deref()` of an instance-identifier terminal, canonisation by a union type -/
+section
+variable {N : Type} [XNum N]
+
+/-- RFC 7950 §10.3.1 `deref(nodes)` when the first node is an instance-identifier terminal (XPath reading, switch F356 off): the
+result is a node-set with AT MOST ONE node; that node is an element the instance-identifier value DENOTES (`Yang.Denotes`: the chain
+of child steps from the root whose key / value predicates hold, RFC 7950 §9.13), it is the first such node in document order, and the
+result is non-empty whenever the value denotes some node.  In valid data (unique list keys, unique leaf-list values) at most one node
+is denoted, so the result is exactly that node. -/
+theorem deref_instid_spec (env : Env) (cx : Cx) (hq : env.q.derefInstErr = false) (x : Ref) (rest : List Ref) (e : Elem)
+    (steps : List Yang.IStep)
+    (he : env.doc.elem? x = some e) (ht : e.term = true) (hl : env.facts.lrefs.lookup (env.doc.spath x) = none)
+    (hi : env.facts.insts.contains (env.doc.spath x) = true) (hp : Yang.parseInst e.value = some steps) :
+    ∃ r, callFn (N := N) env cx "deref" [.ns (x :: rest)] = .ok (.ns r) ∧ IsNodeSet r ∧ r.length ≤ 1 ∧
+      (∀ y ∈ r, ∃ i, y = 2 * i ∧ Yang.Denotes env.doc 0 steps i ∧ ∀ j, Yang.Denotes env.doc 0 steps j → y ≤ 2 * j) ∧
+      ((∃ i, Yang.Denotes env.doc 0 steps i) → r ≠ []) := by
+  have hlt : env.leafrefTargets x = none := by simp only [Env.leafrefTargets, he, ht, if_true, hl]
+  have hit : env.instTarget x = some ((env.norm (Yang.instTargets env.doc e.value)).take 1) := by
+    simp only [Env.instTarget, he, ht, hi, Bool.and_self, if_true]
+  have hmem : ∀ y, y ∈ env.norm (Yang.instTargets env.doc e.value) ↔ y ∈ env.all ∧ ∃ i, y = 2 * i ∧ Yang.Denotes env.doc 0 steps i := by
+    intro y
+    unfold Env.norm
+    rw [mem_mkNs]
+    simp only [Env.all, Yang.instTargets, hp, List.mem_map, mem_instDown]
+    constructor
+    · rintro ⟨h1, i, hd, rfl⟩; exact ⟨h1, i, rfl, hd⟩
+    · rintro ⟨h1, i, rfl, hd⟩; exact ⟨h1, i, hd, rfl⟩
+  have hall : ∀ j, Yang.Denotes env.doc 0 steps j → 2 * j ∈ env.norm (Yang.instTargets env.doc e.value) := by
+    intro j hj
+    exact (hmem _).mpr ⟨elemRef_mem_allRefs _ _ _ (denotes_elem _ hj), j, rfl, hj⟩
+  refine ⟨(env.norm (Yang.instTargets env.doc e.value)).take 1, ?_, ?_, ?_, ?_, ?_⟩
+  · rw [callFn_deref, derefAny_inst env x rest _ hlt hit]; simp [hq]
+  · exact List.Pairwise.sublist (List.take_sublist _ _) (env.norm_isNodeSet _)
+  · exact (List.length_take_le _ _)
+  · intro y hy
+    have hs := env.norm_isNodeSet (Yang.instTargets env.doc e.value)
+    cases hn : env.norm (Yang.instTargets env.doc e.value) with
+    | nil => rw [hn] at hy; simp at hy
+    | cons a l =>
+      rw [hn] at hy hs
+      simp only [List.take_succ_cons, List.take_zero, List.mem_singleton] at hy
+      subst hy
+      obtain ⟨_, i, hyi, hd⟩ := (hmem y).mp (by rw [hn]; simp)
+      refine ⟨i, hyi, hd, ?_⟩
+      intro j hj
+      have hjm := hall j hj
+      rw [hn] at hjm
+      rcases List.mem_cons.mp hjm with h1 | h1
+      · exact Nat.le_of_eq h1.symm
+      · exact Nat.le_of_lt (List.rel_of_pairwise_cons hs h1)
+  · rintro ⟨i, hd⟩ h
+    have := hall i hd
+    cases hn : env.norm (Yang.instTargets env.doc e.value) with
+    | nil => rw [hn] at this; simp at this
+    | cons a l => rw [hn] at h; simp at h
+
+/-- when the value denotes exactly one node `i` (valid data: list keys and leaf-list values are unique), `deref()` is exactly
+the node-set `{i}` — the node the instance-identifier refers to, RFC 7950 §10.3.1 -/
+theorem deref_instid_exact (env : Env) (cx : Cx) (hq : env.q.derefInstErr = false) (x : Ref) (rest : List Ref) (e : Elem)
+    (steps : List Yang.IStep) (i : Nat)
+    (he : env.doc.elem? x = some e) (ht : e.term = true) (hl : env.facts.lrefs.lookup (env.doc.spath x) = none)
+    (hi : env.facts.insts.contains (env.doc.spath x) = true) (hp : Yang.parseInst e.value = some steps)
+    (hd : Yang.Denotes env.doc 0 steps i) (hu : ∀ j, Yang.Denotes env.doc 0 steps j → j = i) :
+    callFn (N := N) env cx "deref" [.ns (x :: rest)] = .ok (.ns [2 * i]) := by
+  obtain ⟨r, hr, _, hlen, hall, hne⟩ := deref_instid_spec (N := N) env cx hq x rest e steps he ht hl hi hp
+  rw [hr]
+  match r, hlen, hall, hne ⟨i, hd⟩ with
+  | [], _, _, h => exact absurd rfl h
+  | [y], _, hall, _ =>
+    obtain ⟨j, hy, hj, _⟩ := hall y (by simp)
+    rw [hy, hu j hj]
+  | _ :: _ :: _, hlen, _, _ => simp at hlen
+
+/-- no node denoted, switch off (RFC 7950 §10.3.1): the empty node-set -/
+theorem deref_instid_none (env : Env) (cx : Cx) (hq : env.q.derefInstErr = false) (x : Ref) (rest : List Ref) (e : Elem)
+    (steps : List Yang.IStep)
+    (he : env.doc.elem? x = some e) (ht : e.term = true) (hl : env.facts.lrefs.lookup (env.doc.spath x) = none)
+    (hi : env.facts.insts.contains (env.doc.spath x) = true) (hp : Yang.parseInst e.value = some steps)
+    (hn : ∀ j, ¬ Yang.Denotes env.doc 0 steps j) :
+    callFn (N := N) env cx "deref" [.ns (x :: rest)] = .ok (.ns []) := by
+  obtain ⟨r, hr, _, _, hall, _⟩ := deref_instid_spec (N := N) env cx hq x rest e steps he ht hl hi hp
+  rw [hr]
+  match r, hall with
+  | [], _ => rfl
+  | y :: _, hall =>
+    obtain ⟨j, _, hj, _⟩ := hall y (by simp)
+    exact absurd hj (hn j)
+/-- what libyang does when the instance-identifier has no instance (switch F356 on; only `require-instance false` leaves and
+unvalidated data can be in that state): the evaluation fails with LY_EINVAL instead of returning the empty node-set -/
+theorem deref_instid_dangling (env : Env) (cx : Cx) (hq : env.q.derefInstErr = true) (x : Ref) (rest : List Ref)
+    (hl : env.leafrefTargets x = none) (h : env.instTarget x = some []) :
+    callFn (N := N) env cx "deref" [.ns (x :: rest)] = .error .inval := by
+  rw [callFn_deref, derefAny_inst env x rest _ hl h]; simp [hq]
+
+/-- `set_comp_canonize` on a UNION-typed terminal (switch `canonStr` on): `value.realtype` of such a node is the union type itself, so
+the string is stored through the union plug-in — the members are tried IN ORDER and the first one that accepts THE STRING gives the
+canonical form the node's string-value is compared with (whatever member the node's own value resolved to); when no member accepts it
+the string is compared as it is. -/
+theorem comp_canonize_union_spec (env : Env) (hq : env.q.canonStr = true) (x : Ref) (e : Elem) (ms : List UMem) (s : Bytes)
+    (he : env.doc.elem? x = some e) (ht : e.term = true) (hty : env.facts.types.lookup (env.doc.spath x) = some (.union ms)) :
+    (compare (N := N) env .eq (.ns [x]) (.str s) = true ↔
+      (∃ pre m post, ms = pre ++ m :: post ∧ (∀ m' ∈ pre, Yang.canonMem env.facts e.mod m' s = none) ∧
+          Yang.canonMem env.facts e.mod m s = some (env.strValue x)) ∨
+      ((∀ m ∈ ms, Yang.canonMem env.facts e.mod m s = none) ∧ env.strValue x = s)) := by
+  rw [compare_canon_single env hq]
+  have hc : env.canonFor x s = Yang.canonUnion env.facts e.mod ms s := by
+    simp only [Env.canonFor, he, ht, if_true, hty, Yang.canonize]
+  rw [hc, beq_iff_eq, eq_comm, canonUnion_spec]
+
+end
+
+/-! non-vacuity: `<l><k>a</k><v>1</v></l><l><k>b</k><v>2</v></l><i>/m:l[k='b']/v</i>`: the value parses, denotes element 6 (`v` of the
+second entry), and `deref(/i)` is that node; `<u>5</u>` of type union { int8, enumeration { one }, string }: `'05'` goes to the int8
+member (`5`), `'one'` to the enumeration, `' one'` to the string member -/
+private def exIid : Bytes := [0x2f, 0x6d, 0x3a, 0x6c, 0x5b, 0x6b, 0x3d, 0x27, 0x62, 0x27, 0x5d, 0x2f, 0x76]
+private def exEnvI : Env :=
+  { doc := ⟨#[⟨0, exM, [0x6c], false, [], []⟩, ⟨1, exM, [0x6b], true, [0x61], []⟩, ⟨1, exM, [0x76], true, [0x31], []⟩,
+              ⟨0, exM, [0x6c], false, [], []⟩, ⟨4, exM, [0x6b], true, [0x62], []⟩, ⟨4, exM, [0x76], true, [0x32], []⟩,
+              ⟨0, exM, [0x69], true, exIid, []⟩]⟩, q := {}, cur := 0,
+    facts := { mods := [exM], insts := [[0x2f, 0x6d, 0x3a, 0x69]] } }
+example : Yang.parseInst exIid = some [{ mod := exM, name := [0x6c], keys := [([0x6b], [0x62])] }, { mod := exM, name := [0x76] }] := by rfl
+example : Yang.instDown exEnvI.doc [{ mod := exM, name := [0x6c], keys := [([0x6b], [0x62])] }, { mod := exM, name := [0x76] }] 0 = [6] := by rfl
+example : exEnvI.instTarget 14 = some [12] := by rfl
+example : ∀ j, j ∈ Yang.instDown exEnvI.doc [{ mod := exM, name := [0x6c], keys := [([0x6b], [0x62])] }, { mod := exM, name := [0x76] }] 0 → j = 6 := by
+  intro j hj
+  have h : Yang.instDown exEnvI.doc [{ mod := exM, name := [0x6c], keys := [([0x6b], [0x62])] }, { mod := exM, name := [0x76] }] 0 = [6] := by rfl
+  rw [h] at hj; simpa using hj
+example : exEnvI.facts.insts.contains (exEnvI.doc.spath 14) = true := by rfl
+
+private def exUn : List UMem := [.val (.int .int8 []), .enm [[0x6f, 0x6e, 0x65]], .str]
+example : Yang.canonUnion {} exM exUn [0x30, 0x35] = [0x35] := by rfl
+example : Yang.canonUnion {} exM exUn [0x6f, 0x6e, 0x65] = [0x6f, 0x6e, 0x65] := by rfl
+example : Yang.canonMem {} exM (.enm [[0x6f, 0x6e, 0x65]]) [0x20, 0x6f, 0x6e, 0x65] = none := by rfl
+
+/-! ## `bit-is-set`: first-node rule, `false` for everything that is not a set bit of a bits terminal -/
+section
+variable {N : Type} [XNum N]
+
+/-- the first-node rule of `bit-is-set` (RFC 7950 §10.6.2 "the first node in document order"): the nodes after the first one of the
+node-set never matter, whatever they are -/
+theorem bit_is_set_first_node (env : Env) (cx : Cx) (x : Ref) (rest rest' : List Ref) (b : Value N) :
+    callFn env cx "bit-is-set" [.ns (x :: rest), b] = callFn env cx "bit-is-set" [.ns (x :: rest'), b] := by
+  rw [callFn_bit_is_set, callFn_bit_is_set]; rfl
+
+/-- every input whose first node is not a `bits` terminal — the empty set, a text node or the root, an inner node, a terminal whose
+value type (the dump's `realtype`: the target type for a leafref, the UNION type for a union even when the value is a bits member) is not
+`bits` — gives `false`, never an error -/
+theorem bit_is_set_not_bits (env : Env) (cx : Cx) (l : List Ref) (b : Value N)
+    (h : ∀ x rest e, l = x :: rest → env.doc.elem? x = some e → e.term = true → e.btype ≠ "bits".toUTF8.toList) :
+    callFn env cx "bit-is-set" [.ns l, b] = .ok (.bool false) := by
+  obtain ⟨r, hr, hiff⟩ := bit_is_set_spec env cx l b
+  rw [hr]
+  cases r with
+  | false => rfl
+  | true =>
+    obtain ⟨x, rest, e, hl, he, ht, hb, _⟩ := hiff.mp rfl
+    exact absurd hb (h x rest e hl he ht)
+
+/-- the second argument is converted with `string()`; a name that is not ONE word of the value (the empty string, two names, a name
+with white space) is never set -/
+theorem bit_is_set_one_word (env : Env) (cx : Cx) (l : List Ref) (b : Value N)
+    (h : ∀ x rest e, l = x :: rest → env.doc.elem? x = some e → b.toStr env ∉ Str.words e.value) :
+    callFn env cx "bit-is-set" [.ns l, b] = .ok (.bool false) := by
+  obtain ⟨r, hr, hiff⟩ := bit_is_set_spec env cx l b
+  rw [hr]
+  cases r with
+  | false => rfl
+  | true =>
+    obtain ⟨x, rest, e, hl, he, _, _, hw⟩ := hiff.mp rfl
+    exact absurd hw (h x rest e hl he)
+end
+
+/-! non-vacuity: element 1 of `exEnvI` (the list entry `<l>`, an inner node) as the first node; `bit-is-set((/b | …), 'x z')` on the bits node -/
+example : ∀ x rest e, [2, 12] = x :: rest → exEnvI.doc.elem? x = some e → e.term = true → e.btype ≠ "bits".toUTF8.toList := by
+  intro x rest e hl he ht
+  cases hl
+  have h2 : exEnvI.doc.elem? 2 = some ⟨0, exM, [0x6c], false, [], []⟩ := by rfl
+  rw [h2] at he; cases he; cases ht
+example : ∀ x rest e, [4] = x :: rest → exEnvE.doc.elem? x = some e → [0x78, 0x20, 0x7a] ∉ Str.words e.value := by
+  intro x rest e hl he
+  cases hl
+  have h2 : exEnvE.doc.elem? 4 = some ⟨0, exM, [0x62], true, [0x78, 0x20, 0x7a], "bits".toUTF8.toList⟩ := by rfl
+  rw [h2] at he; cases he; decide
 
 end LyModel.Props.C08Yang
